@@ -36,6 +36,8 @@ var c13Decls = []c13Decl{
 	// the value is another, commented, variable: the declaration's own comment must win
 	{"local-alias-of-a-commented-local", "local base = 10 -- BASEDOC\n", "local v = base", "v", "print(v)", true, []string{"v"}, false},
 	{"global-alias-of-a-commented-local", "local base = 10 -- BASEDOC\n", "gl = base", "gl", "print(gl)", false, []string{"gl"}, false},
+	// a member of a table constructor that a function returns (use: lines that close the constructor, then the hovered use)
+	{"member-of-a-returned-table", "local function make()\n  return {\n", "    size = 1,", "size", "  }\nend\nlocal obj = make()\nprint(obj.size)", false, []string{"size", "1"}, false},
 }
 
 var c13Placements = []string{"none", "trailing", "above-1", "above-2", "above-triple-dash", "above-separated-by-blank", "trailing-multi-name", "above-1-directly-below-a-trailing-comment"}
@@ -64,7 +66,15 @@ func c13Build(d c13Decl, place string, T string) (c13Case, bool) {
 	if d.pre != "" {
 		lines = append(lines, strings.Split(strings.TrimSuffix(d.pre, "\n"), "\n")...)
 	}
-	lines = append(lines, "local first = 0", "")
+	inTable := d.name == "member-of-a-returned-table"
+	if inTable {
+		if place == "above-1-directly-below-a-trailing-comment" || place == "trailing-multi-name" {
+			return c, false
+		}
+		lines = append(lines, "    first = 0,", "")
+	} else {
+		lines = append(lines, "local first = 0", "")
+	}
 	decl := d.line
 	switch place {
 	case "none":
@@ -125,9 +135,11 @@ func c13Build(d c13Decl, place string, T string) (c13Case, bool) {
 		c.declCol = strings.Index(decl, "k =")
 	}
 	lines = append(lines, decl, "")
+	useLines := strings.Split(d.use, "\n")
+	lines = append(lines, useLines[:len(useLines)-1]...)
 	c.useLine = len(lines)
-	c.useCol = strings.LastIndex(d.use, d.ident)
-	lines = append(lines, d.use)
+	c.useCol = strings.LastIndex(useLines[len(useLines)-1], d.ident)
+	lines = append(lines, useLines[len(useLines)-1])
 	c.text = strings.Join(lines, "\n") + "\n"
 	return c, true
 }
@@ -201,6 +213,9 @@ func c13Space(L int) *core.Space {
 				r.Sample(map[string]interface{}{"m.lua": c.text, "hover_at": fmt.Sprintf("%d:%d", c.declLine, c.declCol), "hover": h})
 			}
 			for _, pos := range [][2]int{{c.declLine, c.declCol}, {c.useLine, c.useCol}} {
+				if c.d.name == "member-of-a-returned-table" && pos[0] == c.declLine {
+					continue // the key inside an anonymous constructor is not itself a hover target; the use is
+				}
 				h, err := s.Hover("m.lua", pos[0], pos[1])
 				r.Transitions++
 				r.States++
@@ -288,7 +303,11 @@ func c13Space(L int) *core.Space {
 				if reworded != old && strings.Count(old, c.T) == 1 {
 					s.ChangeFull("m.lua", reworded)
 					s.ChangeFull("m.lua", "-- inserted\n"+old)
-					h, err := s.Hover("m.lua", c.declLine+1, c.declCol)
+					hl, hc := c.declLine+1, c.declCol
+					if c.d.name == "member-of-a-returned-table" {
+						hl, hc = c.useLine+1, c.useCol
+					}
+					h, err := s.Hover("m.lua", hl, hc)
 					r.Transitions += 3
 					r.States++
 					if err == nil {
@@ -310,7 +329,7 @@ func init() {
 	core.Register(&core.Check{
 		ID:        "C13",
 		Technique: "bounded-exhaustive enumeration (declaration forms x comment placements x all comment strings up to a length over an 8-symbol alphabet of ASCII, 2-, 3- and 4-byte characters) on the real server against the documented attachment rule",
-		Rule: "12 declaration forms (functions with a vararg parameter list, aliases of a commented variable included) x 7 comment placements (none, trailing, one line above, two-line block, --- line, block separated by a blank line, trailing on a multi-name local) x every comment text of <=2 (quick) / <=3 (thorough) symbols over {a, space, é, я, 中, 😀, -, *}; hover at the declaration and at a use. " +
+		Rule: "13 declaration forms (a member of a table constructor returned by a function, functions with a vararg parameter list, aliases of a commented variable included) x 7 comment placements (none, trailing, one line above, two-line block, --- line, block separated by a blank line, trailing on a multi-name local) x every comment text of <=2 (quick) / <=3 (thorough) symbols over {a, space, é, я, 中, 😀, -, *}; hover at the declaration and at a use. " +
 			"The label must contain the identifier and what the declaration says (local marker, literal, parameter names in order); the documentation must be the attached comment (trailing, else block directly above; never a block separated by a blank line), byte-identical after the clean-up of leading/trailing dashes, stars and blanks. " +
 			"states = hovers judged; non-trivial = cases whose comment contains non-ASCII characters",
 		Assumptions: []string{"comments that are empty after clean-up, that start with an extra dash, or contain '[' are not judged for documentation", "documentation lines are compared after trimming blanks, dashes and stars at both ends"},
